@@ -538,6 +538,9 @@ TARGETED = {
     # ... and with one dependent only (2x1)
     "barrier-2x1": [("source", [], [], False), ("call", [0], [], True), ("call", [0], [], True), ("source", [], [1, 2], False),
                     ("call", [3], [], True)],
+    # three rebuilt stored dependencies and two dependents: m*n > m+n, the Barrier literal SURVIVES pruning
+    "barrier-3x2": [("source", [], [], False), ("call", [0], [], True), ("call", [0], [], True), ("call", [0], [], True),
+                    ("source", [], [1, 2, 3], False), ("call", [4], [], True), ("call", [0], [4], False), ("call", [6, 5], [], True)],
     # fresh stored node newer than its stored consumer's consumer: times must flow through fresh stored nodes
     "stored-chain": [("source", [], [], False), ("call", [0], [], True), ("call", [1], [], False), ("call", [2], [], True),
                      ("call", [3], [], True)],
@@ -674,6 +677,13 @@ def cut_and_repair(ctx, camp, w, output, desc):
                  % (k, HANG_TIMEOUT), {"meta": w.meta, "sigma_before": sigma0, "cut_at": k, "of": total, "log": cutlog[:200], "desc": desc})
         raise WorldLost()
     if w.fault_fired and res[0] == "ok":
+        scr1 = w.scratch(w.sigma())
+        wrong = [i for i, m in enumerate(w.meta) if m["store"] is not None and not m["is_src"]
+                 and (w.sigma()[m["store"]] is None or w.sigma()[m["store"]][0] != scr1[i])]
+        camp.add("C03", "run-returned-normally-with-wrong-stores",
+                 "a run in which operation %d raised a %s returned normally; output %r, stored values of nodes %r differ from a run from scratch"
+                 % (k, "BaseException subclass" if hard else "Exception", res[1], wrong),
+                 {"meta": w.meta, "sigma_before": sigma0, "cut_at": k, "of": total, "log": cutlog[:200], "desc": desc})
         camp.add("C08", "cut-run-reports-success", "the run was cut at operation %d by a raised %s but uberjob.run returned normally"
                  % (k, "BaseException subclass" if hard else "Exception"),
                  {"meta": w.meta, "sigma_before": sigma0, "cut_at": k, "of": total, "log": cutlog[:200], "desc": desc})
